@@ -632,7 +632,9 @@ func checkKeyProvenance(c *Ctx, name string, fn *ssa.Function, pub ssa.Value, us
 	nPaths := 0
 	for _, g := range w.ReachableRepo([]*ssa.Function{fn}, false) {
 		for _, call := range callsTo(g, "os.ReadFile", "os.Stat", "os.Open") {
-			for _, lf := range w.Leaves(call.Common().Args[0], call) {
+			// (alternatives of the variable only: a path built by a helper keeps the context of its call, where the
+			// origins of the helper's parameters are those of this call's arguments)
+			for _, lf := range w.leaves(call.Common().Args[0], call, false) {
 				nPaths++
 				rs := w.rootsInFrame(fn, g, w.Origins(lf.Val))
 				dep := rs["p1.LogName"]
